@@ -281,6 +281,8 @@ class AttachmentSet(dict):
         if value is None:
             del self[key]
             return
+        # Remove the values that are being replaced.
+        self._update_attachment(key, None, None)
         super().__setitem__(
             key,
             AttachmentValueDict(key, value, update=lambda k, v: self._update_attachment(key, k, v))
@@ -1184,10 +1186,7 @@ class ParsedEvent(EDXMLEvent, etree.ElementBase):
         Returns:
           ParsedEvent:
         """
-        try:
-            self._attachments[name] = attachment
-        except AttributeError:
-            self._attachments = AttachmentSet({name: attachment}, update_attachment=self.__update_attachment)
+        self.get_attachments()[name] = attachment
 
         return self
 
@@ -1590,10 +1589,7 @@ class EventElement(EDXMLEvent):
           EventElement:
         """
 
-        if self._attachments is None:
-            self._attachments = AttachmentSet({name: attachment}, update_attachment=self.__update_attachment)
-        else:
-            self._attachments[name] = attachment
+        self.get_attachments()[name] = attachment
         return self
 
     def add_parents(self, parent_hashes):
